@@ -51,7 +51,9 @@ def plan(seed, subbatch):
         params = sample_params(cfg, cls, max_period=4 if small else 20)
         params["input_value"] = pname
         spec = {"cls": cls, "params": params, "common": {}}
-        config = {"kind": "chain", "producer": prod, "spec": spec}
+        config = {"kind": "chain", "producer": prod, "spec": spec,
+                  # the same class and parameters a second time on the plain close, told apart by a name suffix
+                  "sibling": sub_rng(seed, "sibling").random() < 0.25}
     elif cfg.random() < 0.12:
         # the pattern / movement wrappers are shipped indicators too
         from ..catalogue import sample_spec
@@ -148,7 +150,13 @@ def _build(cfg, rows):
         return ind, ind
     prod = build(cfg["producer"])
     cons = build(cfg["spec"])
-    hx = Hexital("sim", mk_candles(rows), [prod, cons], timeframe_fill=cfg.get("fill", False))
+    members = [prod, cons]
+    if cfg.get("sibling"):
+        sp = cfg["spec"]
+        sib = build(dict(sp, params={k: v for k, v in sp["params"].items() if k != "input_value"},
+                         common=dict(sp["common"], name_suffix="b")))
+        members = [prod, sib, cons]
+    hx = Hexital("sim", mk_candles(rows), members, timeframe_fill=cfg.get("fill", False))
     return hx, cons
 
 
